@@ -152,3 +152,13 @@ Theorem C04_network_entry_points_are_the_sources : forall from m s,
   snd (Node.run (GenHandlers.gen_ReceiveRestartExistingChannelRequest (Node.n_self (Node.s_node s)) from m) s) = snd (Node.run (Node.recv_restart_existing from m) s).
 Proof. exact HandlerEq.receiver_handlers_are_source. Qed.
 Print Assumptions C04_network_entry_points_are_the_sources.
+
+(* UpdateValidationStatus as written in Node.v (only the responder; the events that record the outcome; the reply,
+   a Complete while finalizing, paused iff the request stays paused; resume through the transport with the reply
+   attached iff accepted, not held, paused and not finalizing; otherwise the reply over the network, then close
+   on rejection or pause when newly held) runs, for every interpreter state, like the program regenerated from
+   impl/impl.go UpdateValidationStatus / updateValidationStatus / processValidationUpdate / handleTransportUpdate *)
+Theorem C04_update_validation_is_the_sources : forall k vr s,
+  HandlerEq.same_run (Node.run (HandlerEq.with_self (fun self => GenHandlers.gen_UpdateValidationStatus self k vr)) s) (Node.run (Node.update_validation k vr) s).
+Proof. exact HandlerEq.update_validation_is_source. Qed.
+Print Assumptions C04_update_validation_is_the_sources.
